@@ -239,6 +239,9 @@ class World:
     def sleep(self, seconds):
         ms = int(round(seconds * 1000))
 
+        if getattr(self, 'direct', False):
+            return
+
         self.park({'kind': 'sleep', 'deadline': self.now + max(0, ms)})
 
     def check_killed(self):
